@@ -327,7 +327,9 @@ func (g *VG) fill(v reflect.Value, opt string, key bool, depth int) {
 		}
 		v.Set(m)
 	case reflect.Interface:
-		v.Set(reflect.ValueOf(g.JSON(2, 0)))
+		if j := g.JSON(2, 0); j != nil {
+			v.Set(reflect.ValueOf(j))
+		}
 	}
 }
 
